@@ -31,7 +31,7 @@ MIN_EVALUATIONS = {"quick": 1, "thorough": 1}
 
 
 def plan(tier, seed):
-    depth = 8 if tier == "quick" else 16
+    depth = 11 if tier == "quick" else 16
     return [dict(seed=seed, layout=lay, reg="registered", depth=depth,
                  tier=tier) for lay in c22.LAYOUTS] + \
         [dict(seed=seed, sterile=True)]
